@@ -51,7 +51,11 @@ ClauseOf(t, e) ==
               ELSE IF ~e.refused THEN (IF DropClause(r) = "a" THEN "b" ELSE "c") \o ":not_refused"
               ELSE ""
   ELSE \* MustPass
-         IF e.dir = "rx" THEN (IF DeliveryObservable(t) /\ ~e.delivered THEN "d:rx_dropped" ELSE "")
+         IF e.dir = "rx" THEN (IF DeliveryObservable(t) /\ ~e.delivered THEN "d:rx_dropped"
+                               \* delivered to the application but kept from the library's own entity layer, although
+                               \* the same packet alone in a gateway of its own is taken in: the decision depended on
+                               \* what had been received before, not on the addresses (J24)
+                               ELSE IF e.stale THEN "d:rx_dropped_after_earlier_traffic" ELSE "")
          ELSE IF e.cansend /\ ~e.written THEN "d:tx_refused" ELSE ""
 
 DriftOf(t, e) ==
